@@ -326,11 +326,13 @@ def fix_json(v):
     return v
 
 
-def load(source, emb):
-    """Netlist(source) with fresh-process tolerance registers -> ("ok", netlist) | ("rej", exception name)"""
+def load(source, emb, keep_tolerance=False):
+    """Netlist(source) with fresh-process tolerance registers -> ("ok", netlist) | ("rej", exception name)
+    keep_tolerance: the registers are left as the previous load set them (second design of a process)"""
     from frame.netlist.netlist import Netlist
     from frame.geometry.geometry import Rectangle
-    Rectangle.undefine_epsilon()
+    if not keep_tolerance:
+        Rectangle.undefine_epsilon()
     try:
         return "ok", Netlist(source)
     except Exception as e:   # any exception counts as rejection (AssertionError expected)
